@@ -446,12 +446,85 @@ def run_pulse(dev, rng, nevents, out):
     return res[0], stats
 
 
+def check_platform_netlists(out):
+    """AsyncFFSynchronizer / ResetSynchronizer elaborated for the Xilinx platform are built from FDPE primitives the
+    simulator cannot run: the emitted netlist is read and evaluated instead.  There are `stages` flip-flops, all
+    clocked by the output domain, every preset pin carries the input (async_edge="pos") or its complement ("neg")
+    - so the output asserts as soon as the input does.  (The release path through the D pins is not evaluated: the
+    primitives' outputs are opaque to the evaluator.)"""
+    from amaranth.hdl import Module, Signal, ClockDomain
+    from amaranth.hdl._ir import PortDirection as PD
+    from amaranth.lib.cdc import AsyncFFSynchronizer, ResetSynchronizer
+    from amaranth.back import rtlil
+    from ..rtlil import parse as RP, eval as RE
+    for kind in ("AsyncFFSynchronizer", "ResetSynchronizer"):
+        for edge in (("pos", "neg") if kind == "AsyncFFSynchronizer" else ("pos",)):
+            for stages in (2, 3, 4):
+                cfg = {"kind": kind, "stages": stages, "async_edge": edge, "platform": "xilinx", "observed": "netlist"}
+                m = Module()
+                m.domains.odom = cd = ClockDomain("odom")
+                i, o = Signal(name="i"), Signal(name="o")
+                ports = {"i": (i, PD.Input), "clk": (cd.clk, PD.Input)}
+                if kind == "AsyncFFSynchronizer":
+                    m.submodules.dut = AsyncFFSynchronizer(i, o, o_domain="odom", stages=stages, async_edge=edge)
+                    ports["o"] = (o, PD.Output)
+                    ports["rst"] = (cd.rst, PD.Input)
+                else:
+                    m.submodules.dut = ResetSynchronizer(i, domain="odom", stages=stages)
+                    m.d.comb += o.eq(cd.rst)
+                    ports["o"] = (o, PD.Output)
+                out["evaluations"] += 1
+                out["hist"]["platform-netlist:" + kind] = out["hist"].get("platform-netlist:" + kind, 0) + 1
+
+                def bad(why, **kw):
+                    out["violations"].append({"mechanism": "platform-override-netlist:" + why + ":" + kind, "detail": dict(config=cfg, **kw)})
+                try:
+                    doc = RP.parse(rtlil.convert(m, platform=make_platform("xilinx"), ports=ports, emit_src=False))
+                    ev = RE.Evaluator(doc)
+                except Exception as ex:
+                    if exc_origin(ex) != "repo" and not isinstance(ex, (RP.ParseError, RE.EvalError)):
+                        raise
+                    bad("exception", exception=repr(ex)[:200])
+                    continue
+                cells = [(mod, c) for mod in doc.modules.values() for c in mod.cells.values() if c.type == "\\FDPE"]
+                if len(cells) != stages:
+                    bad("flip-flop-count", found=len(cells), expected=stages)
+                    continue
+                scope = next(pth for pth, sc in ev.scopes.items() if sc.module.name == cells[0][0].name)
+
+                def val(bit):
+                    if bit[0] != "w":
+                        return (int(bit[1]) if bit[0] == "c" else None, 0)
+                    v, x = ev.get_path(list(scope), bit[1])
+                    return ((v >> bit[2]) & 1, (x >> bit[2]) & 1)
+                ok = True
+                for iv in (0, 1, 0, 1):
+                    ev.set("i", iv)
+                    ev.set("clk", 0)
+                    if "rst" in ports:
+                        ev.set("rst", 0)
+                    ev.step()
+                    want = iv if edge == "pos" else 1 - iv
+                    for mod, c in cells:
+                        pv = val(c.conns["PRE"][0])
+                        if pv != (want, 0):
+                            bad("preset-pin-does-not-follow-the-input", input=iv, preset=list(pv), expected=want)
+                            ok = False
+                            break
+                    if not ok:
+                        break
+                if not ok:
+                    continue
+                out["fps"].add(fp(cfg))
+
+
 def shards(tier, seed):
     n = 320 if tier == "quick" else 16000
     specs = [{"kind": "sample", "seed": seed, "shard": i, "schedules": n // NSHARDS, "events": 200} for i in range(NSHARDS)]
     L = 7 if tier == "quick" else 9
     for dev in ("ff2", "ff3", "ff2neg", "aff2p", "aff2n", "aff3p", "rs2", "rs3", "rs2a"):
         specs.append({"kind": "enum", "dev": dev, "L": L})
+    specs.append({"kind": "platform-netlists"})
     return specs
 
 
@@ -510,7 +583,9 @@ def run_shard(spec):
     def record(v, dev):
         out["violations"].append({"mechanism": v.mech + ":" + dev.cfg["kind"], "detail": v.detail})
     try:
-        if spec["kind"] == "enum":
+        if spec["kind"] == "platform-netlists":
+            check_platform_netlists(out)
+        elif spec["kind"] == "enum":
             dev = make_enum_dev(spec["dev"]).build()
             v, n = enumerate_sequences(dev, spec["L"], out)
             out["extra"]["enumerated_sequences"] += n
